@@ -373,6 +373,17 @@ func prop(c Case) error {
 	if err != nil {
 		return fmt.Errorf("re-encoding a decoded geometry failed: %v", err)
 	}
+	// the re-encoding is kept while other geometries are encoded (a caller re-encodes
+	// many rows before it looks at any of them again)
+	reKept := append([]byte(nil), re...)
+	for _, o := range []geom.T{geom.NewPointFlat(geom.XY, []float64{-7, 9}), geom.NewLineStringFlat(geom.XYZ, []float64{1, 2, 3, 4, 5, 6, 7, 8, 9})} {
+		if _, err := d.marshal(o, bo); err != nil {
+			return fmt.Errorf("Marshal of a plain geometry: %v", err)
+		}
+	}
+	if !bytes.Equal(re, reKept) {
+		return fmt.Errorf("the re-encoding returned by Marshal changed when other geometries were marshalled afterwards:\n now % x\n was % x", re, reKept)
+	}
 	// the re-encoding may hold more elements per level than the (drawn) limits only
 	// if the input did: decode it under the same limits
 	g2, err := d.unmarshal(re)
